@@ -1012,6 +1012,15 @@ func (e *PPA) runDefers(fr *Frame, ds []*ssa.Defer, das [][]RV, st *State, k con
 		prefix = ""
 	}
 	ev := e.callEv(st, fr, d, prefix)
+	if !d.Call.IsInvoke() {
+		if perm := refPerm(staticCallee(&d.Call)); perm != nil && len(da) >= len(perm) {
+			re := append([]RV(nil), da...)
+			for i := range perm {
+				re[i] = da[perm[i]]
+			}
+			da = re
+		}
+	}
 	if da != nil && len(da) >= len(ev.Args) {
 		copy(ev.Args, da[:len(ev.Args)])
 		if len(da) == len(ev.Args)+1 && len(ev.Args) > 0 {
@@ -1084,6 +1093,16 @@ func (e *PPA) callEv(st *State, fr *Frame, in ssa.CallInstruction, prefix string
 	}
 	for _, a := range c.Args {
 		ev.Args = append(ev.Args, e.Resolve(st, RV{fr, a}))
+	}
+	// a callee whose parameters were reordered relative to the reference tree: operands in reference order
+	if !c.IsInvoke() {
+		if perm := refPerm(staticCallee(c)); perm != nil && len(perm) == len(ev.Args) {
+			re := make([]RV, len(ev.Args))
+			for i := range perm {
+				re[i] = ev.Args[perm[i]]
+			}
+			ev.Args = re
+		}
 	}
 	for i, a := range ev.Args {
 		if els, ok := e.sliceLitElems(st, a); ok {
